@@ -690,25 +690,28 @@ def ValidateTokenExchangeRequest (now : Int) (oidcTokenExchangeRequest : EPForm)
   (if ((oidcTokenExchangeRequest).SubjectTokenType == "") then
       (.error "ErrInvalidRequest")
     else
-    (match (GenEP.AuthorizeTokenExchangeClient now clientID clientSecret exchanger) with
-      | .error err => (.error err)
-      | .ok client =>
-      (if (!(ValidateGrantType now client Const.GrantTypeTokenExchange)) then
-        (.error "ErrUnauthorizedClient")
+    (if (((oidcTokenExchangeRequest).ActorToken != "") && ((oidcTokenExchangeRequest).ActorTokenType == "")) then
+        (.error "ErrInvalidRequest")
       else
-      (if (((oidcTokenExchangeRequest).RequestedTokenType != "") && (!(Hand.epTokenTypeSupported (oidcTokenExchangeRequest).RequestedTokenType))) then
-          (.error "ErrInvalidRequest")
+      (match (GenEP.AuthorizeTokenExchangeClient now clientID clientSecret exchanger) with
+        | .error err => (.error err)
+        | .ok client =>
+        (if (!(ValidateGrantType now client Const.GrantTypeTokenExchange)) then
+          (.error "ErrUnauthorizedClient")
         else
-        (if (!(Hand.epTokenTypeSupported (oidcTokenExchangeRequest).SubjectTokenType)) then
+        (if (((oidcTokenExchangeRequest).RequestedTokenType != "") && (!(Hand.epTokenTypeSupported (oidcTokenExchangeRequest).RequestedTokenType))) then
             (.error "ErrInvalidRequest")
           else
-          (if (((oidcTokenExchangeRequest).ActorTokenType != "") && (!(Hand.epTokenTypeSupported (oidcTokenExchangeRequest).ActorTokenType))) then
+          (if (!(Hand.epTokenTypeSupported (oidcTokenExchangeRequest).SubjectTokenType)) then
               (.error "ErrInvalidRequest")
             else
-            (match (Hand.epCreateTokenExchangeRequest now oidcTokenExchangeRequest client exchanger) with
-              | .error err => (.error err)
-              | .ok req =>
-              (.ok (req, client))))))))))
+            (if (((oidcTokenExchangeRequest).ActorTokenType != "") && (!(Hand.epTokenTypeSupported (oidcTokenExchangeRequest).ActorTokenType))) then
+                (.error "ErrInvalidRequest")
+              else
+              (match (Hand.epCreateTokenExchangeRequest now oidcTokenExchangeRequest client exchanger) with
+                | .error err => (.error err)
+                | .ok req =>
+                (.ok (req, client)))))))))))
 
 theorem ValidateTokenExchangeRequest_eq (now : Int) (oidcTokenExchangeRequest : EPForm) (clientID clientSecret : String) (exchanger : EPProvider) : GenEP.ValidateTokenExchangeRequest now oidcTokenExchangeRequest clientID clientSecret exchanger = SpecEP.ValidateTokenExchangeRequest now oidcTokenExchangeRequest clientID clientSecret exchanger := by
   unfold GenEP.ValidateTokenExchangeRequest SpecEP.ValidateTokenExchangeRequest; ep_shape
@@ -1157,19 +1160,22 @@ def tokenExchangeHandler (now : Int) (o : EPOracles) (s : EPWebServer) (r : EPRe
   (if ((request).SubjectTokenType == "") then
       (GenEP.WriteError now r "ErrInvalidRequest")
     else
-    (if (!(Hand.epTokenTypeSupported (request).SubjectTokenType)) then
+    (if (((request).ActorToken != "") && ((request).ActorTokenType == "")) then
         (GenEP.WriteError now r "ErrInvalidRequest")
       else
-      (if (((request).RequestedTokenType != "") && (!(Hand.epTokenTypeSupported (request).RequestedTokenType))) then
+      (if (!(Hand.epTokenTypeSupported (request).SubjectTokenType)) then
           (GenEP.WriteError now r "ErrInvalidRequest")
         else
-        (if (((request).ActorTokenType != "") && (!(Hand.epTokenTypeSupported (request).ActorTokenType))) then
+        (if (((request).RequestedTokenType != "") && (!(Hand.epTokenTypeSupported (request).RequestedTokenType))) then
             (GenEP.WriteError now r "ErrInvalidRequest")
           else
-          (match (GenEP.LegacyTokenExchange now (s).server (Hand.epNewClientRequest r request client)) with
-            | .error err => (GenEP.WriteError now r err)
-            | .ok resp =>
-            (EPResp.ok resp ))))))))
+          (if (((request).ActorTokenType != "") && (!(Hand.epTokenTypeSupported (request).ActorTokenType))) then
+              (GenEP.WriteError now r "ErrInvalidRequest")
+            else
+            (match (GenEP.LegacyTokenExchange now (s).server (Hand.epNewClientRequest r request client)) with
+              | .error err => (GenEP.WriteError now r err)
+              | .ok resp =>
+              (EPResp.ok resp )))))))))
 
 theorem tokenExchangeHandler_eq (now : Int) (o : EPOracles) (s : EPWebServer) (r : EPRequest) (client : OPClient) : GenEP.tokenExchangeHandler now o s r client = SpecEP.tokenExchangeHandler now o s r client := by
   unfold GenEP.tokenExchangeHandler SpecEP.tokenExchangeHandler; ep_shape
